@@ -234,6 +234,15 @@ fn case_distance(loc: &mut Local, x: &Ix, a: RDt, b: RDt, offs: Option<(i64, i64
             loc.bucket(x.z_dist);
             let za = fa.from_utc_datetime(&av);
             let zb = fb.from_utc_datetime(&bv);
+            // the operator forms by value and by reference (documented to equal signed_duration_since)
+            match guard(|| (za - zb, za - &zb)) {
+                Ok((o1, o2)) => {
+                    if ri::td_ns(&o1) != exp || ri::td_ns(&o2) != exp {
+                        loc.violation("C03/DateTime::sub/operator-form-differs-or-depends-on-offset", json!({"input": input(), "offsets": [oa, ob], "expected_ns": exp.to_string(), "by_value_ns": ri::td_ns(&o1).to_string(), "by_reference_ns": ri::td_ns(&o2).to_string()}));
+                    }
+                }
+                Err(p) => loc.violation(&format!("C03/DateTime::sub/panic@{}", p.site()), json!({"input": input(), "offsets": [oa, ob], "panic": p.to_json()})),
+            }
             match guard(|| (za.signed_duration_since(zb), za.signed_duration_since(Utc.from_utc_datetime(&bv)), za.cmp(&zb), zb.checked_add_signed(got).map(|v| v == za))) {
                 Ok((d1, d2, ord, back)) => {
                     if ri::td_ns(&d1) != exp || ri::td_ns(&d2) != exp || ord != exp.cmp(&0) || back != Some(true) {
